@@ -189,10 +189,87 @@ Lemma append_simple co phs cls i ats ps :
                      (b_attrs (c_base co) ++ ats)) (c_ps co ++ ps)).
 Proof. intros H. unfold comp_append. rewrite H. reflexivity. Qed.
 
-(* F3: the full statement is false of the faithful model *)
+(* the suffix error of Sass is an error of the model (F3 fixed by dfe7d33: no panic any more) *)
 Definition star_nest : list sels :=
   [[Sel None (Comp (mkBase false (Some (str "*")) [] [] None []) [])];
    [Sel None (Comp (mkBase true (Some (str "b")) [] [] None []) [])]].
 
-Lemma refuted_star : model star_nest = MPanic /\ spec_levels star_nest = SErr /\ spec_class star_nest = 1%N.
-Proof. vm_compute. repeat split; reflexivity. Qed.
+Lemma star_suffix_error : model star_nest = MErr /\ spec_levels star_nest = SErr.
+Proof. vm_compute. split; reflexivity. Qed.
+
+(* `:host {&.foo {x:y}}` emits nothing (class K2): the full statement is still false of the faithful model *)
+Definition host_nest : list sels :=
+  [[Sel None (Comp base0 [Pseudo (str "host") false ArgNone])];
+   [Sel None (Comp (mkBase true None [] [str "foo"] None []) [])]].
+Lemma refuted_host : model host_nest = MOut None /\ spec_levels host_nest <> SOk [] /\ spec_class host_nest = 2%N.
+Proof. vm_compute. repeat split; try reflexivity. discriminate. Qed.
+
+(* wherever the model refuses a suffix, the Sass reading refuses it as well *)
+Lemma glue_fail_is_spec_error c suf : glue_suffix c suf = Fail -> exists k, spec_glue c suf = SpErr k.
+Proof.
+  destruct c as [b ps]. unfold glue_suffix, spec_glue. destruct (negb (plain_name suf)); [discriminate|].
+  destruct (rev ps) as [|[n e [l|t|]] r].
+  - destruct (rev (b_attrs b)); [|intros _; eexists; reflexivity].
+    destruct (rev (b_classes b)); [|discriminate]. destruct (b_id b); [discriminate|].
+    destruct (rev (b_phs b)); [|discriminate]. destruct (b_elem b) as [e|]; [|discriminate].
+    destruct (text_eqb e (str "*")) eqn:E.
+    + intros _. apply text_eqb_eq in E. subst e. eexists; reflexivity.
+    + destruct (plain_name e); discriminate.
+  - intros _; eexists; reflexivity.
+  - intros _; eexists; reflexivity.
+  - discriminate.
+Qed.
+
+(* ---------- `&` under a LIST of outer selectors ---------- *)
+Definition c0_of (b : cbase) (ps : list pseudo) : compound :=
+  Comp (mkBase false (b_elem b) (b_phs b) (b_classes b) (b_id b) (b_attrs b)) ps.
+
+(* the `&` compound is the whole inner selector, carries no selector pseudos, and for every outer selector the
+   appended compound is left alone by the unification with the empty compound *)
+Definition clean_ref (outers : sels) (i : sel) : Prop :=
+  exists b ps, i = Sel None (Comp b ps) /\ b_backref b = true /\ forallb simple_pseudo ps = true
+    /\ forall o, In o outers -> exists a, comp_append (s_comp o) (c0_of b ps) = Ok a /\ unify_default a = Some a
+                                          /\ (s_rel o = None \/ comp_is_empty a = false).
+
+Definition resolved (o i : sel) : sel :=
+  if hb_sel i then
+    match i with
+    | Sel _ (Comp b ps) =>
+        Sel (s_rel o) (match comp_append (s_comp o) (c0_of b ps) with Ok a => a | _ => comp0 end)
+    end
+  else nest1 o i.
+
+Lemma concat_singletons {A B} (f : A -> B) l : concat (map (fun x => [f x]) l) = map f l.
+Proof. induction l; cbn; [reflexivity|]. rewrite IHl. reflexivity. Qed.
+
+Lemma rr_clean_ref outers i : clean_ref outers i ->
+  hb_sel i = true /\ rr_sel outers i = Ok (map (fun o => resolved o i) outers).
+Proof.
+  intros [b [ps [-> [Hb [Hs Hc]]]]].
+  assert (Hh : hb_sel (Sel None (Comp b ps)) = true) by (cbn; rewrite Hb; reflexivity).
+  split; [exact Hh|].
+  rewrite rr_sel_unfold, (rr_pseudos_simple outers ps Hs). cbn [res_bind]. rewrite Hb.
+  assert (E : map (fun s0 => res_bind (comp_append (s_comp s0) (Comp (mkBase false (b_elem b) (b_phs b) (b_classes b) (b_id b) (b_attrs b)) ps))
+                                     (fun a => Ok (unify_ctx (s_rel s0) a))) outers
+              = map (fun o => Ok [resolved o (Sel None (Comp b ps))]) outers).
+  { apply map_ext_in. intros o Ho. destruct (Hc o Ho) as [a [Ha [Hu He]]]. unfold resolved. rewrite Hh.
+    fold (c0_of b ps). rewrite Ha. cbn [res_bind]. unfold unify_ctx. rewrite Hu.
+    destruct (s_rel o) as [r|]; [|reflexivity]. destruct He as [He|He]; [discriminate|]. rewrite He. reflexivity. }
+  rewrite E, (res_all_ok (fun o => [resolved o (Sel None (Comp b ps))]) outers). cbn [res_bind].
+  rewrite concat_singletons. reflexivity.
+Qed.
+
+(* every inner selector either has no `&` or is a clean `&` compound: the nested list is the outer-major product *)
+Lemma nest_ref_product outers inners :
+  (forall i, In i inners -> hb_sel i = false \/ clean_ref outers i) ->
+  nest_set outers inners outers = Ok (flat_map (fun o => map (resolved o) inners) outers).
+Proof.
+  intros H. unfold nest_set.
+  assert (E : map (fun o => if hb_sel o then rr_sel outers o else Ok (map (fun s => nest1 s o) outers)) inners
+              = map (fun i => Ok (map (fun o => resolved o i) outers)) inners).
+  { apply map_ext_in. intros i Hi. destruct (H i Hi) as [Hn|Hc].
+    - rewrite Hn. f_equal. apply map_ext. intros o. unfold resolved. rewrite Hn. reflexivity.
+    - destruct (rr_clean_ref outers i Hc) as [Hh Hr]. rewrite Hh. exact Hr. }
+  rewrite E, res_all_ok. cbn [res_bind]. f_equal.
+  exact (round_robin_product (fun o i => resolved o i) outers inners).
+Qed.
